@@ -15,6 +15,17 @@ use tiny_http::verif_rt::core::RunCfg;
 
 pub struct C13;
 
+/// This check is cheap: the quick tier already runs the full alphabet (what used to be the
+/// thorough tier); `deep` marks the extras that only the thorough tier adds.
+#[allow(dead_code)]
+fn full(_t: Tier) -> bool {
+    true
+}
+#[allow(dead_code)]
+fn deep(t: Tier) -> bool {
+    t == Tier::Thorough
+}
+
 #[derive(Clone, Debug)]
 enum Split {
     Unsplit,
@@ -60,14 +71,14 @@ fn interesting_offsets(b: &[u8]) -> Vec<usize> {
 fn items(tier: Tier) -> &'static Vec<Item> {
     static Q: OnceLock<Vec<Item>> = OnceLock::new();
     static T: OnceLock<Vec<Item>> = OnceLock::new();
-    let cell = if tier == Tier::Quick { &Q } else { &T };
+    let cell = if !full(tier) { &Q } else { &T };
     cell.get_or_init(|| {
         let mut v = Vec::new();
         for (ci, c) in the_corpus().iter().enumerate() {
             let n = c.bytes.len();
             v.push(Item { conv: ci, split: Split::Unsplit });
             let long = n > 400;
-            if !long || tier == Tier::Thorough {
+            if !long || full(tier) {
                 for k in 1..n {
                     v.push(Item { conv: ci, split: Split::Cuts(vec![k]) });
                 }
@@ -77,7 +88,7 @@ fn items(tier: Tier) -> &'static Vec<Item> {
                 }
             }
             v.push(Item { conv: ci, split: Split::Bytewise });
-            if tier == Tier::Thorough {
+            if full(tier) {
                 if n <= 120 {
                     for a in 1..n {
                         for b in a + 1..n {
@@ -218,9 +229,9 @@ impl Check for C13 {
         format!(
             "corpus of {} conversations ({} bytes total; every framing kind, every C10/C16 error class, 100-continue, pipelines, unread bodies, raw writer, deferred answers, 6 conversations crossing the 1024-byte buffers): for each the unsplit delivery, every single split point{}, one-byte-at-a-time delivery, and every pair of split points for conversations <= {} bytes{}; each read returns exactly one segment and the server is quiescent between segments; {} runs; oracle: delivered heads/bodies, responses modulo Date and end-of-stream identical to the unsplit run; non-trivial = any split run",
             c.len(), c.iter().map(|x| x.bytes.len()).sum::<usize>(),
-            if tier == Tier::Quick { " (long conversations: around CRLFs and the 1024/2048 offsets)" } else { "" },
-            if tier == Tier::Quick { 60 } else { 120 },
-            if tier == Tier::Thorough { " (longer ones: pairs over CRLF / buffer-boundary offsets)" } else { "" },
+            if !full(tier) { " (long conversations: around CRLFs and the 1024/2048 offsets)" } else { "" },
+            if !full(tier) { 60 } else { 120 },
+            if full(tier) { " (longer ones: pairs over CRLF / buffer-boundary offsets)" } else { "" },
             items(tier).len()
         )
     }
